@@ -65,7 +65,7 @@ func parent() {
 	if bin == "" {
 		bin, _ = os.Executable()
 	}
-	n := r.Pick(1500, 30000)
+	n := r.Pick(2000, 30000)
 	cases := buildCases(r.Seed, n, r.Pick(1, 4))
 	runDir := filepath.Join(r.WorkDir(), fmt.Sprintf("run-%s-s%d-%s", r.Tier, r.Seed, filepath.Base(bin)))
 	os.RemoveAll(runDir)
